@@ -2,7 +2,7 @@
 """seed3_import.py <Cxx> <mK> <newname> : derive the crate / demo arguments from the diffs and call seed_confirm.py"""
 import sys, re, os, subprocess
 pid, mk, name = sys.argv[1:4]
-wt = f"/tmp/seed3/{pid}"; out = f"{wt}/_out/{mk}"
+wt = os.environ.get("SEEDDIR", "/tmp/seed3") + f"/{pid}"; out = f"{wt}/_out/{mk}"
 def crate_of(path):
     d = os.path.dirname(path)
     while d and not os.path.exists(os.path.join(wt, d, "Cargo.toml")): d = os.path.dirname(d)
